@@ -1,5 +1,6 @@
 import SimVerif.Gen.KOptimizeV
 import SimVerif.Tie.Optimize
+import SimVerif.Tie.VMetric
 /-!
 # Tie (DESIGN.md 14.12): `VisualMetric::optimize` whole, as the Rust source has it now
 
@@ -113,5 +114,36 @@ theorem visual_optimize_tail {Obs φ : Type} (featureOf : Obs → Option φ) (dr
 /-- `postprocess_distances` of VisualSORT keeps the results that carry a feature distance or a positional metric -/
 theorem tie_visual_postprocess {M : Type} (l : List (MOk M)) :
     visual_postprocess_distances l = l.filter (fun r => r.feature_distance.isSome || r.attribute_metric.isSome) := rfl
+
+/-! ### `VisualMetric::metric` whole -/
+
+/-- **`VisualMetric::metric`** on a candidate observation `⟨cb, q, own⟩ / cf` and a track observation `⟨tb, …⟩ / tf`:
+the positional part is `positional_metric` of the two boxes (tied to `SortMetric`'s rules in `Tie/VMetric.lean`), whatever
+the features; the appearance part exists **only if** the candidate's feature may be used (box area, quality, own-area share at
+or above the *use* thresholds — `featureCanBeUsed` —, the candidate's box present), both observations carry a feature, and the
+track has collected enough features (`visualMetric`); then it is the kind's weight of the feature distance -/
+theorem tie_visual_metric_whole {F : Type} (toofar : UBox α → UBox α → Bool) (inter : UBox α → UBox α → α) (kfdist : α × α → UBox α → α)
+    (chi : Nat → α) (upper : α) (euclidean cosine : F → F → α) (pk : PosMetric α) (vk : VisualMetric.Kind α)
+    (minConf minArea qUse ownUse : α) (minLen collected : Nat) (wp wv : α)
+    (cb : CBox α) (q : α) (own : Option α) (cf : Option F) (tv : VOA α) (tf : Option F) :
+    visual_metric_whole toofar inter kfdist chi upper euclidean cosine pk vk minConf minArea qUse ownUse minLen collected wp wv
+        (some { bbox := some cb, visual_quality := q, own_area_percentage := own }, cf) (some tv, tf) =
+      some (v_positional_metric toofar inter kfdist chi upper pk minConf (some (toU cb)) (tv.bbox.map toU) wp wv,
+            if VisualMetric.featureCanBeUsed minArea (Geom.area (toU cb)) q qUse own ownUse then
+              (match cf, tf with
+               | some c, some t => VisualMetric.visualMetric vk minLen collected
+                   (match vk with | .euclid _ => euclidean c t | .cosine _ => cosine c t)
+               | _, _ => none)
+            else none) := by
+  unfold visual_metric_whole
+  simp only [voa_visual_quality, voa_own_area_percentage_opt, Option.map_some, tie_v_feature_can_be_used]
+  cases cf <;> cases tf <;> simp only [tie_v_visual_metric] <;> rfl
+
+/-- a candidate or track observation without attributes is a panic (`expect`) -/
+theorem visual_metric_whole_noattr {F : Type} (toofar : UBox α → UBox α → Bool) (inter : UBox α → UBox α → α) (kfdist : α × α → UBox α → α)
+    (chi : Nat → α) (upper : α) (euclidean cosine : F → F → α) (pk : PosMetric α) (vk : VisualMetric.Kind α)
+    (minConf minArea qUse ownUse : α) (minLen collected : Nat) (wp wv : α) (cf : Option F) (trk : Option (VOA α) × Option F) :
+    visual_metric_whole toofar inter kfdist chi upper euclidean cosine pk vk minConf minArea qUse ownUse minLen collected wp wv
+        (none, cf) trk = none := rfl
 
 end SimVerif.Tie
